@@ -152,7 +152,8 @@ impl<'a> ProgGen<'a> {
                 let els = self.nodes(depth - 1, 2);
                 Node::If { id: self.id(), cond, then, els: Some(els) }
             } else {
-                Node::Scope { id: self.id(), body: self.nodes(depth - 1, 3) }
+                let hooks = if self.g.chance(0.4) { Some(self.g.below(8) as u8) } else { None };
+                Node::Scope { id: self.id(), body: self.nodes(depth - 1, 3), hooks }
             };
             out.push(node);
         }
